@@ -24,6 +24,12 @@ the iteration untouched.  C07.5 the per-allocation sort key puts running
 before pending (shared with C06.1).  C07.6 the inactive-server pre-pass
 collects instances only from servers that are down (expired retention) or
 frozen (unschedule flag) - never from an up server (shared with C08.1).
+Added by the seeding rounds - C07.3 the restore map is created before the walk
+and never re-initialised inside it, and no iteration ends before the restore
+attempt except the documented exits; C07.4 (shared with C03.5) the current
+instance is moved for a renewal only when the renewal really failed; C07.6
+(shared with C08.1) the inactive-server pre-pass takes nothing off an up
+server.
 Does NOT decide the relation between queue order and the before/after
 placements of a whole cycle (a property of the run).
 """
